@@ -529,6 +529,66 @@ pub fn run(run: &mut Run) {
         }
         run.bound("certain_weights", json!("one member (or one sub-pair) carries the whole weight w, the partner 0: w = 1..=1100 and 13 larger values up to u32::MAX; every stream over the extended grid (extreme words included)"));
     }
+    // weights deep inside the domain: the pair's side is decided by a threshold on the first word; bisection
+    // locates it, and it must sit at a / (a + b) (64 executions per pair instead of a grid of a + b cells)
+    {
+        use crate::c12::{coin_threshold, FirstWordThenOnes};
+        let vals: Vec<u32> = vec![1, 2, 3, 7, 10, 48, 49, 50, 97, 100, 103, 1000, 1009, 4096, 12_345, 65_535, 65_537, 1_000_003, 16_777_213, 16_777_217, 123_456_789, 1 << 30, 1_500_000_001, 2_000_000_011];
+        let pairs: Vec<(u32, u32)> = vals.iter().flat_map(|a| vals.iter().map(move |b| (*a, *b))).filter(|(a, b)| (*a as u64 + *b as u64) <= u32::MAX as u64).collect();
+        let res = mcx::par_map(pairs.len(), |i| {
+            let (a, b) = pairs[i];
+            let pop = mk_pop(&[0, 1]);
+            let mut runs = 0u64;
+            let mut out: Vec<(String, String)> = vec![];
+            // static pair, dynamic list, and the pair nested as the first member of another pair with a zero-weight partner
+            // (the dynamic list samples with rejection: its smallest words are redrawn, so its first word is not a
+            // plain threshold; its laws are decided on the grids above)
+            for form in [0usize, 2] {
+                let t = mcx::guarded(|| {
+                    coin_threshold(
+                        |w| {
+                            runs += 1;
+                            let mut rng = FirstWordThenOnes { first: w, used: false };
+                            let r = match form {
+                                0 => WeightedPair::new(wm(0, a), wm(1, b)).ok()?.select(&pop, &mut rng).ok().map(|x| index_of(&pop, x)),
+                                1 => DynWeighted::<Pop>::new(Marker(0), a as usize).with_selector(Marker(1), b as usize).select(&pop, &mut rng).ok().map(|x| index_of(&pop, x)),
+                                _ => WeightedPair::new(WeightedPair::new(wm(0, a), wm(1, b)).ok()?, wm(1, 0)).ok()?.select(&pop, &mut rng).ok().map(|x| index_of(&pop, x)),
+                            };
+                            match r {
+                                Some(Some(0)) => Some(true),
+                                Some(Some(1)) => Some(false),
+                                _ => None,
+                            }
+                        },
+                        1 << 10,
+                    )
+                })
+                .unwrap_or_else(Err);
+                let want = a as f64 / (a as f64 + b as f64);
+                let name = ["WeightedPair", "DynWeighted", "nested WeightedPair"][form];
+                match t {
+                    Err(e) => out.push((format!("weighted/deep/{name}/result"), format!("{name} with weights ({a}, {b}): {e}"))),
+                    Ok(t) => {
+                        let p = if t == u64::MAX { 1.0 } else { t as f64 / 18_446_744_073_709_551_616.0 };
+                        // (the dynamic list samples an integer below the total: exact to 1/total; the pair a 64-bit ratio)
+                        let tol = if form == 1 { 1.0 / (a as f64 + b as f64) + 1e-12 } else { 1e-12 };
+                        if (p - want).abs() > tol {
+                            out.push((format!("weighted/deep/{name}/law"), format!("{name} with weights ({a}, {b}): the first member is used for first words below {t:#x}, i.e. with probability {p:.12}; its weight share is {want:.12}")));
+                        }
+                    }
+                }
+            }
+            (runs, out)
+        });
+        for (runs, out) in res {
+            run.evaluations += runs;
+            run.transitions += runs;
+            for (k, w) in out {
+                run.violation(k, w, json!({"check":"C13","scenario":"deep"}));
+            }
+        }
+        run.bound("deep_weight_pairs", json!(format!("{} ordered pairs over {:?}", pairs.len(), vals)));
+    }
     let ov = overflow_checks(run);
     run.evaluations += ov;
     run.transitions += ov;
